@@ -6,6 +6,7 @@
   protocol (see harness/c05/c05_test.go):
     new <m> <n1>,<n2>,…            => ok <root strategy tree> <root strategy hash>
     ins <name> <face> <cost> | rem <name> <face> | clr <name> | sets <name> <s> | unsets <name>  => ok
+    rep <name>=<hops>;<name>=<hops>…   (ReplaceNextHopsEnc; hops = f:c,f:c or -)                 => ok
     qa                             => T <hops>@<strat>|…  H <hops>@<strat>|…      (one item per universe name)
     q <name>                       => T <hops>@<strat> H <hops>@<strat>
     lf                             => T <name>=<hops>;… H …                          (sorted by name text)
@@ -90,10 +91,25 @@ def lpmTag (h : Hash) (n : Name) : String :=
 
 def dedup (l : List String) : List String := l.foldl (fun acc x => if acc.contains x then acc else acc ++ [x]) []
 
-def mutate (st : St) (op : Op) (got : String) : StepResult St :=
-  let t' := st.tree.apply op
-  let h' := st.hash.apply op
-  let s' := st.spec.apply op
+def parseHops (s : String) : Option Hops :=
+  if s == "-" then some []
+  else (s.splitOn ",").mapM fun x =>
+    match x.splitOn ":" with
+    | [f, c] => do let f ← f.toNat?; let c ← c.toNat?; pure (f, c)
+    | _ => none
+
+/-- `<name>=<hops>;<name>=<hops>…` -/
+def parseUpdates (s : String) : Option (List Update) :=
+  (s.splitOn ";").mapM fun x =>
+    match x.splitOn "=" with
+    | [n, h] => do let n ← Name.ofText n; let h ← parseHops h; pure (n, h)
+    | _ => none
+
+def mutateCall (st : St) (call : Call) (got : String) : StepResult St :=
+  let op : Op := match call with | .op o => o | .replace _ => .clr []   -- only used for the per-op tags
+  let t' := st.tree.call call
+  let h' := st.hash.call call
+  let s' := st.spec.call call
   let covT := if t'.nodes.length + 1 < st.tree.nodes.length then ["tree-prune-chain"]
     else if t'.nodes.length < st.tree.nodes.length then ["tree-prune-leaf"]
     else if t'.nodes.length > st.tree.nodes.length + 1 then ["tree-fill-chain"]
@@ -103,17 +119,30 @@ def mutate (st : St) (op : Op) (got : String) : StepResult St :=
     ++ (if h'.virt.any (fun p => match afind st.hash.virt p.1 with | some md => p.2 < md | none => false) then ["hash-md-shrink"] else [])
     ++ (if h'.virt.any (fun p => match afind st.hash.virt p.1 with | some md => p.2 > md | none => false) then ["hash-md-grow"] else [])
     ++ (if h'.real.length < st.hash.real.length then ["hash-real-del"] else [])
-  let covO := match op with
-    | .ins n f _ => [if hasFace (st.spec.nhAt n) f then "ins-update" else "ins-new"]
-    | .rem n f => [if hasFace (st.spec.nhAt n) f then "rem-hit" else "rem-miss"]
-    | .clr n => [if (st.spec.nhAt n).isEmpty then "clr-miss" else "clr-hit"]
-    | .sets n _ => [if (st.spec.stAt n).isSome then "sets-replace" else "sets-new"]
-    | .unsets n => [if (st.spec.stAt n).isSome then "unsets-hit" else "unsets-miss"]
-  let removed := st.removed || (match op with | .ins .. => false | .sets .. => false | _ => true)
+  let covO := match call with
+    | .op (.ins n f _) => [if hasFace (st.spec.nhAt n) f then "ins-update" else "ins-new"]
+    | .op (.rem n f) => [if hasFace (st.spec.nhAt n) f then "rem-hit" else "rem-miss"]
+    | .op (.clr n) => [if (st.spec.nhAt n).isEmpty then "clr-miss" else "clr-hit"]
+    | .op (.sets n _) => [if (st.spec.stAt n).isSome then "sets-replace" else "sets-new"]
+    | .op (.unsets n) => [if (st.spec.stAt n).isSome then "unsets-hit" else "unsets-miss"]
+    | .replace us =>
+      (if us.length > 1 then ["rep-batch"] else []) ++ us.flatMap fun u =>
+        let cur := st.spec.nhAt u.1
+        let new := (Spec.call ⟨[], []⟩ (.replace [u])).nhAt u.1
+        [if new.isEmpty then (if cur.isEmpty then "rep-empty-noop" else "rep-clears")
+         else if cur.isEmpty then "rep-creates"
+         else if renderHops cur == renderHops new then "rep-unchanged"
+         else if cur.length == new.length then "rep-same-length" else "rep-other-length"]
+        ++ (if cur.length == new.length && renderHops cur != renderHops new &&
+              cur.all (fun h => new.contains h || (h.2 == 0 && !hasFace new h.1)) then ["rep-drops-only-cost0"] else [])
+        ++ (if u.2.length != new.length then ["rep-duplicate-face"] else [])
+  let removed := st.removed || (match call with | .op (.ins ..) => false | .op (.sets ..) => false | _ => true)
   { st := { st with tree := t', hash := h', spec := s', removed := removed },
     expected := some "ok", cov := covT ++ covH ++ covO,
     spec := if isCrash got then [⟨"no-panic", "op", s!"table operation crashed: {got}"⟩]
             else if !op.admissible then [] else [] }
+
+def mutate (st : St) (op : Op) (got : String) : StepResult St := mutateCall st (.op op) got
 
 def step (st : St) (op : String) (got : String) : StepResult St :=
   match op.splitOn " " with
@@ -153,6 +182,10 @@ def step (st : St) (op : String) (got : String) : StepResult St :=
       if n.isEmpty then { st := st, expected := some "skip" }   -- management never produces this
       else mutate st (.unsets n) got
     | _ => { st := st, expected := some "bad-op" }
+  | ["rep", us] =>
+    match parseUpdates us with
+    | some us => mutateCall st (.replace us) got
+    | none => { st := st, expected := some "bad-op" }
   | ["qa"] =>
     let want := st.univ.map (specItem st.spec)
     let mt := "|".intercalate (st.univ.map (treeItem st.tree))
